@@ -9,6 +9,7 @@ CONSTANTS
   NR = 1
   NT = 2
   Writers = {1, 2}
+  ItThreads = {1, 2}
   RdThreads = {1, 2}
   MapInit = 10
   UsedInit = 9
